@@ -225,6 +225,56 @@ pub fn c10_conv_number_emptyarr() {
     std::mem::forget(v);
 }
 
+/// Number()-style conversion of containers through their string form: [true] -> "true" -> NaN, [null] -> "" -> 0, {} -> NaN
+fn conv_container(k: u8) {
+    let v = match k {
+        0 => Value::Array(vec![Value::Bool(in_bool::<1>())]),
+        1 => Value::Array(vec![Value::Null]),
+        2 => Value::Object(serde_json::Map::new()),
+        _ => Value::Array(vec![Value::Array(vec![Value::Bool(in_bool::<1>())])]),
+    };
+    let got = js_op::to_number(&v);
+    vshow!("to_number({:?}) = {:?}", v, got);
+    match k {
+        1 => assert!(got.map(f64::to_bits) == Some(0.0f64.to_bits()), "C10: [null] must convert to 0"),
+        _ => assert!(got.is_none(), "C10: [true] / [false] / {} / [[true]] are non-numeric (their text is not a number)"),
+    }
+    std::mem::forget(v);
+}
+
+//@ harness: c10_conv_number_arrbool tier=thorough timeout=1800 kind=main mem=20 optional=1
+//@ encodes: js_op::to_number, js_op::to_string (array join), js_op::str_to_number
+//@ bound: operand [Bool(any)]: Number()-style conversion goes through the text "true"/"false" => non-numeric
+#[cfg_attr(kani, kani::proof)]
+#[cfg_attr(kani, kani::unwind(20))]
+#[cfg_attr(kani, kani::stub(std::fmt::format, stub_format))]
+#[cfg_attr(verif_replay, test)]
+pub fn c10_conv_number_arrbool() {
+    conv_container(0);
+}
+
+//@ harness: c10_conv_number_arrnull tier=thorough timeout=1800 kind=main mem=20 optional=1
+//@ encodes: js_op::to_number, js_op::to_string (array join), js_op::str_to_number
+//@ bound: operand [null]: text "" => 0
+#[cfg_attr(kani, kani::proof)]
+#[cfg_attr(kani, kani::unwind(20))]
+#[cfg_attr(kani, kani::stub(std::fmt::format, stub_format))]
+#[cfg_attr(verif_replay, test)]
+pub fn c10_conv_number_arrnull() {
+    conv_container(1);
+}
+
+//@ harness: c10_conv_number_obj tier=quick timeout=600 kind=main mem=8
+//@ encodes: js_op::to_number, js_op::to_string, js_op::str_to_number
+//@ bound: operand {}: text "[object Object]" => non-numeric
+#[cfg_attr(kani, kani::proof)]
+#[cfg_attr(kani, kani::unwind(20))]
+#[cfg_attr(kani, kani::stub(std::fmt::format, stub_format))]
+#[cfg_attr(verif_replay, test)]
+pub fn c10_conv_number_obj() {
+    conv_container(2);
+}
+
 //@ harness: c10_conv_number_object tier=thorough timeout=1200 kind=main mem=12 optional=1
 //@ encodes: js_op::to_number, js_op::to_string, js_op::str_to_number, core dec2flt on the constant "[object Object]"
 //@ bound: operand {}: non-numeric (None)
